@@ -60,6 +60,7 @@ type Options struct {
 	RaceDetect    bool
 	TickBudget    int64           // loop-iteration budget between scheduling points (default 2e6)
 	FineReads     bool            // every connection Read is a scheduling point (no burst reduction)
+	FineLoops     bool            // every loop iteration of instrumented code is a scheduling point (for code that shares state without any synchronization operation)
 	EnvDeviations map[string]bool // enabled kinds of environment choice points
 	Start         time.Time       // logical clock origin
 }
